@@ -143,7 +143,8 @@ def build(w):
 
 
 MANIFEST_ENTRY = {
-    'text': 'Proof of the sequential core of the manager server: with the invariant "every counted object is in the object table '
+    'text': 'PARTIAL (the server\'s tables and the dispatch gate; proxy semantics and concurrent clients are out of reach).  '
+            'Proof of the sequential core of the manager server: with the invariant "every counted object is in the object table '
             'and has at least one reference", incref adds exactly one reference to exactly that object; decref gives one up, the '
             'object stays in the table while a reference is left and is disposed of (both tables) with the last one, and '
             'refuses to go below zero; create registers the new referent with exactly the creator\'s reference; none of them '
